@@ -14,6 +14,7 @@ import (
 
 	"github.com/cockroachdb/errors"
 	"github.com/cockroachdb/errors/errbase"
+	"github.com/cockroachdb/errors/errorspb"
 	"github.com/gogo/protobuf/proto"
 	"pgregory.net/rapid"
 
@@ -88,8 +89,23 @@ type version struct {
 	image   errbase.VerifRegistry
 }
 
+// The leaf type has a custom encoder whose payload the decoder needs
+// (so that an encoder registered under the type key must be found for
+// a renamed type too).
 func ld(f func(string) error) errbase.LeafDecoder {
-	return func(_ context.Context, msg string, _ []string, _ proto.Message) error { return f(msg) }
+	return func(_ context.Context, msg string, _ []string, payload proto.Message) error {
+		p, ok := payload.(*errorspb.StringPayload)
+		if !ok || p.Msg != "payload of "+msg {
+			return nil
+		}
+		return f(msg)
+	}
+}
+
+func le() errbase.LeafEncoder {
+	return func(_ context.Context, err error) (string, []string, proto.Message) {
+		return err.Error(), nil, &errorspb.StringPayload{Msg: "payload of " + err.Error()}
+	}
 }
 func wd(f func(error) error) errbase.WrapperDecoder {
 	return func(_ context.Context, c error, _ string, _ []string, _ proto.Message) error { return f(c) }
@@ -141,6 +157,7 @@ func buildVersions() {
 			}
 			if current != "" {
 				n := byName[current]
+				errbase.RegisterLeafEncoder(errbase.GetTypeKey(n.newLeaf("")), le())
 				errbase.RegisterLeafDecoder(errbase.GetTypeKey(n.newLeaf("")), ld(n.newLeaf))
 				errbase.RegisterWrapperDecoder(errbase.GetTypeKey(n.newWrap(nil)), wd(n.newWrap))
 			}
